@@ -13,15 +13,22 @@ package main
 //        infull    the subject floods a third client that has stopped reading: the subject's processor is parked
 //                  in the third party's outgoing ring, the subject's incoming ring is full
 //        selffull  the subject has stopped reading and floods its own subscription: its processor is parked in
-//                  its OWN outgoing ring, its incoming ring is full (the receiver waits for ring space: no socket
-//                  read is pending, so no read deadline is armed - keep-alive cannot fire here, finding F8)
+//                  its OWN outgoing ring, its incoming ring is completely full (the receiver waits because the ring
+//                  is full: no socket read is pending, so no read deadline is armed - keep-alive cannot fire
+//                  here, finding F8)
 //        selfout   the same with just enough packets to fill the outgoing ring: the processor is parked in its OWN
 //                  outgoing ring, the incoming ring has room, the receiver is inside a socket read (finding F7:
 //                  before b77088f a read error - keep-alive expiry - left this connection standing)
 //        cross     subject and third have both stopped reading and flood each other: each processor is parked
 //                  in the other's outgoing ring
-//        chunked   the subject sends the first 9000 bytes of a 16 000 byte PUBLISH in 1000-byte writes (16 KiB
-//                  ring: the receiver waits for 8 KiB of free space, the processor for the rest of the packet)
+//        chunked   the subject sends the first 15 000 bytes of a 16 000 byte PUBLISH in 1000-byte writes and then
+//                  nothing: the packet is never completed (16 KiB ring: all 15 000 bytes are in the ring, the
+//                  processor waits for the rest, the receiver is inside a socket read).  Regression case of
+//                  finding F3: before 8f682d1 ReadFrom waited for 8 KiB of free space before every read, the
+//                  writes blocked after ~9000 bytes and neither close nor keep-alive was ever noticed.
+//                  (Causes that are bytes make no sense here: they would be swallowed as the packet's payload.)
+//        chunkwhole the subject sends the whole 16 000 byte PUBLISH (nobody is subscribed) in pieces of varying
+//                  sizes; it is processed, the connection is idle afterwards
 // cause  disconnect | close | protoerr | oversize | keepalive | srvclose (Server.Close while everybody is connected)
 // order  s (default)  the subject ends first; a third party that holds it up is closed afterwards
 //        t            the third party is closed (and torn down) first, then the subject ends;
@@ -207,20 +214,36 @@ func lifeRun(cond, cause, order string) string {
 		third.setPaused(true)
 		floodDone = flood(subj, "toT", 80)
 		flood(third, "toS", 80)
-	case "chunked":
+	case "chunked", "chunkwhole":
+		// a 16 000-byte PUBLISH: it needs the last read block of the 16 KiB incoming ring
 		pkt := wPub{topic: []byte("big"), payload: make([]byte, 16000-8)}.encode()
+		var pieces []int
+		if cond == "chunked" {
+			// the first 15 000 bytes in 1000-byte writes, then nothing: the packet never completes
+			for i := 0; i < 15; i++ {
+				pieces = append(pieces, 1000)
+			}
+		} else {
+			// the whole packet in pieces of varying sizes (the last piece is whatever is left)
+			pieces = []int{1, 7, 100, 1000, 3000, 2, 4000, 1, 900, 3000, 500, 2489, len(pkt)}
+		}
 		floodDone = make(chan struct{})
 		go func() {
 			defer close(floodDone)
-			for off := 0; off < len(pkt); off += 1000 {
-				end := off + 1000
+			off := 0
+			for _, n := range pieces {
+				end := off + n
 				if end > len(pkt) {
 					end = len(pkt)
+				}
+				if off >= end {
+					break
 				}
 				subj.conn.SetWriteDeadline(time.Now().Add(60 * time.Second))
 				if _, err := subj.conn.Write(pkt[off:end]); err != nil {
 					return
 				}
+				off = end
 			}
 		}()
 	default:
@@ -232,6 +255,14 @@ func lifeRun(cond, cause, order string) string {
 		time.Sleep(300 * time.Millisecond)
 	} else {
 		time.Sleep(100 * time.Millisecond)
+	}
+	if cond == "chunked" || cond == "chunkwhole" {
+		// the pieces have all been taken by the broker (a receiver that stops reading - F3 - leaves the
+		// writer blocked: go on after a while, the scenario then shows the wedge)
+		select {
+		case <-floodDone:
+		case <-time.After(2 * time.Second):
+		}
 	}
 	if order == "t" && third != nil && cause != "srvclose" {
 		// the third party ends first (abruptly); its own teardown may have to wait for the subject
@@ -380,9 +411,16 @@ func (lifeCore) handle(ws []string) string {
 	return "bad-op"
 }
 
+// chunkScns: a packet that needs the last read block of the incoming ring arrives in pieces - never completed
+// (chunked; the causes that are bytes make no sense there) or completed and processed (chunkwhole).  Ordinary
+// scenarios since 8f682d1 (before: finding F3, the connection wedged).
+var chunkScns = []lifeScn{{"chunkwhole", "close", "s"}, {"chunkwhole", "disconnect", "s"}, {"chunked", "close", "s"},
+	{"chunkwhole", "keepalive", "s"}, {"chunked", "keepalive", "s"}, {"chunkwhole", "protoerr", "s"}, {"chunkwhole", "oversize", "s"}}
+
 // genLife: the cause x condition matrix of the property's quantifier (idle, own outgoing ring full, incoming ring
 // full behind a third party's full outgoing ring) with the subject ending first; quick = the first n lines
-// (keep-alive only on the idle connection), thorough = all 15, then random picks.
+// (keep-alive only on the idle connection), thorough = all 15 and the chunked-packet scenarios, then random picks
+// from both.
 func genLife(seed int64, n int, tier string, w *bufio.Writer) {
 	r := rand.New(rand.NewSource(seed))
 	fmt.Fprintln(w, "life reset")
@@ -404,7 +442,21 @@ func genLife(seed int64, n int, tier string, w *bufio.Writer) {
 			k++
 		}
 	}
+	if tier == "thorough" {
+		for _, cs := range chunkScns {
+			if k >= n {
+				return
+			}
+			fmt.Fprintf(w, "life run %s %s %s\n", cs.cond, cs.cause, cs.order)
+			k++
+		}
+	}
 	for ; k < n; k++ {
+		if r.Intn(5) == 0 {
+			cs := pick(r, chunkScns)
+			fmt.Fprintf(w, "life run %s %s %s\n", cs.cond, cs.cause, cs.order)
+			continue
+		}
 		fmt.Fprintf(w, "life run %s %s\n", pick(r, conds), pick(r, causes))
 	}
 }
@@ -446,14 +498,15 @@ func genLifeSrv(seed int64, n int, tier string, w *bufio.Writer) {
 	all := []lifeScn{
 		{"infull", "srvclose", "s"}, {"cross", "srvclose", "s"}, {"idle", "srvclose", "s"}, {"outfull", "srvclose", "s"},
 		{"infull", "srvclose", "t"}, {"selffull", "srvclose", "s"}, {"chunked", "srvclose", "s"}, {"cross", "srvclose", "t"},
-		{"outfull", "srvclose", "t"}, {"selfout", "srvclose", "s"},
+		{"outfull", "srvclose", "t"}, {"selfout", "srvclose", "s"}, {"chunkwhole", "srvclose", "s"},
 	}
 	emitScns(w, rand.New(rand.NewSource(seed)), n, all, all)
 }
 
-// genLifeChunked: defect F3 (a packet longer than ring size - read block arriving in pieces); the wedging
-// causes are the witness of the open finding, Server.Close still gets the connection down.
+// genLifeChunked: the chunked-packet scenarios on their own (quick: the completed packet; the never-completed one
+// with close / keep-alive is the regression witness of F3 and runs on every check anyway).
 func genLifeChunked(seed int64, n int, tier string, w *bufio.Writer) {
-	all := []lifeScn{{"chunked", "srvclose", "s"}, {"chunked", "close", "s"}, {"chunked", "keepalive", "s"}}
-	emitScns(w, rand.New(rand.NewSource(seed)), n, all, nil)
+	all := append([]lifeScn{}, chunkScns...)
+	all = append(all, lifeScn{"chunked", "srvclose", "s"}, lifeScn{"chunkwhole", "srvclose", "s"})
+	emitScns(w, rand.New(rand.NewSource(seed)), n, all, all)
 }
